@@ -830,6 +830,7 @@ Traversal:
 			// the key value is something constant.
 
 			open := p.Read()
+			p.PushIncludeNewlines(false) // arbitrary newlines allowed in brackets
 			switch p.Peek().Type {
 			case TokenStar:
 				// This is a full splat expression, like foo[*], which consumes
@@ -846,6 +847,7 @@ Traversal:
 					})
 					close = p.recover(TokenCBrack)
 				}
+				p.PopIncludeNewlines()
 				// Splat expressions use a special "anonymous symbol"  as a
 				// placeholder in an expression to be evaluated once for each
 				// item in the source expression.
@@ -869,7 +871,6 @@ Traversal:
 			default:
 
 				var close Token
-				p.PushIncludeNewlines(false) // arbitrary newlines allowed in brackets
 				keyExpr, keyDiags := p.ParseExpression()
 				diags = append(diags, keyDiags...)
 				if p.recovery && keyDiags.HasErrors() {
